@@ -1,11 +1,11 @@
 SPECIFICATION TraceSpec
 CONSTANTS
-  Node = {1, 2, 3}
-  Q = 2
+  Node = {1, 2, 3, 4, 5}
+  Q = 3
   MaxAuth = 1000000
   MaxLen = 1000000
   Cmds = {}
-  MaxDown = 1
+  MaxDown = 2
   FixF1 = TRUE
   AlwaysBarrier = FALSE
   V_AckBelowQuorum = FALSE
